@@ -27,6 +27,15 @@
 //! OWN — `favor:shared-differs`; (c) SHARED and OWN are of the same kind — `favor:kind-differs`; (d) no
 //! panic — `favor:panic`.  Kinds without a concrete model (H10, quality 10/11) run the oracles only.
 //!
+//! `sjob` lines (tie of BV/Model/StreamJob.lean, used by BV.Props.C02Part / C06Pure): a job whose encoder
+//! is fresh when it issues its call (job 0; any job at quality 0/1; any job with an empty prefix) is run
+//! through the REAL `compress_part` (cfg(brotli_verif) hook) — that result is the expected answer — and
+//! through a replica encoder set up exactly as `compress_part` does (engine `stream`'s `Session`, which
+//! records the payload-encoder invocations of the FINISH call through `verif_stream_hook`); the model
+//! `streamJob` replays the call with the recorded answers as its oracle and must return the same
+//! `Ok(bytes)` / `Err`.  Request: `favor sjob <i> <t> <n> <quality> <lgwin> <catable> <appendable>
+//! <magic> <piece> <answers>`; search oracle: replica and real job agree (`favor:sjob-replica-differs`).
+//!
 //! non-trivial case (rep.nontrivial): quality >= 2 and the shared index of job j holds at least one
 //! position (prefix longer than the look-ahead).
 use crate::prng::Rng;
@@ -36,6 +45,9 @@ use alloc_stdlib::StandardAlloc;
 use brotli::enc::backward_references::{AnyHasher, BrotliEncoderParams, CloneWithAlloc, UnionHasher};
 use brotli::enc::encode::{BrotliEncoderStateStruct, HasherSetup, SanitizeParams};
 use std::panic::{catch_unwind, AssertUnwindSafe};
+use brotli::enc::BrotliEncoderMaxCompressedSize;
+use crate::multi::V;
+use crate::stream::{Call, Session};
 
 type UH = UnionHasher<StandardAlloc>;
 
@@ -217,6 +229,80 @@ fn gen_case(rng: &mut Rng, class: u64, thorough: bool) -> Case {
     Case { q, lgwin, hint, t, j, data: gen_data(rng, n), gen }
 }
 
+/// one `sjob` case: (request, expected answer) or None when the payload answers cannot be expressed
+fn sjob_case(rng: &mut Rng, rep: &mut Report, big: bool) -> Option<(String, String)> {
+    // big: quality 0/1, window 2^10 / 2^12, ~12 KB of random bytes: the job buffer is too small, the job answers Err
+    let class = if big { 8 } else { rng.below(8) };
+    let (q, i, t, n): (i32, usize, usize, usize) = match class {
+        0 | 1 | 2 | 3 => { let t = rng.range(1, 6) as usize; (rng.range(0, 9) as i32, 0, t, rng.range(0, 2400) as usize) }            // job 0
+        8 => (rng.range(0, 1) as i32, 0, 1, rng.range(11000, 13000) as usize),
+        4 | 5 | 6 => { let t = rng.range(2, 6) as usize; (rng.range(0, 1) as i32, rng.range(1, (t - 1) as u64) as usize, t, rng.range(0, 3000) as usize) } // quality 0/1, any job
+        _ => { let t = rng.range(3, 16) as usize; (rng.range(0, 9) as i32, 1, t, rng.range(0, (t as u64) / 2) as usize) }                  // empty prefix: (1 * n) / t = 0
+    };
+    let lgwin = if big { *rng.pick(&[10i32, 12]) } else { *rng.pick(&[10i32, 12, 14, 16, 18, 22]) };
+    let (catable, appendable, magic) = (rng.chance(1, 3), rng.chance(1, 3), rng.chance(1, 4));
+    let input: Vec<u8> = if big { (0..n).map(|_| rng.next() as u8).collect() } else { gen_data(rng, n) };
+    let r = brotli::enc::threading::verif_hooks::get_range(i, t, n);
+    let (lo, hi) = (r.start, r.end);
+    if lo != 0 && q >= 2 { return None; }
+    let mut params = BrotliEncoderParams::default();
+    params.quality = q; params.lgwin = lgwin; params.catable = catable; params.appendable = appendable; params.magic_number = magic;
+    rep.evaluations += 1;
+    rep.count("sjob.cases");
+    // the real job
+    let pair = (V(input.clone()), params.clone());
+    let real = catch_unwind(AssertUnwindSafe(|| brotli::enc::threading::verif_hooks::compress_part(UnionHasher::Uninit, i, t, &pair, StandardAlloc::default())));
+    let real_tok = match real {
+        Ok(Ok((size, mem))) => format!("ok:{}", hex(&mem.slice()[..size])),
+        Ok(Err(_)) => "err".to_string(),
+        Err(_) => "panic".to_string(),
+    };
+    let _ = brotli::enc::encode::verif_stream_hook::take();
+    // the replica, recorded
+    let mut sess = Session::new();
+    sess.enc.params = params.clone();
+    if i != 0 { sess.enc.params.catable = true; sess.enc.params.magic_number = false; }
+    sess.enc.params.appendable = true;
+    if i != 0 {
+        let ok = catch_unwind(AssertUnwindSafe(|| sess.enc.set_custom_dictionary_with_optional_precomputed_hasher(lo, &input[..lo], UnionHasher::Uninit)));
+        if ok.is_err() { return None; }
+    }
+    let cap = BrotliEncoderMaxCompressedSize(hi - lo);
+    let (ret, _consumed, produced) = sess.stream(2, &input[lo..hi], cap);
+    let fin = sess.enc.is_finished();
+    let replica_tok = if sess.dead.is_some() { "panic".to_string() } else if ret && fin { format!("ok:{}", hex(&sess.delivered[..produced])) } else { "err".to_string() };
+    if replica_tok != real_tok {
+        rep.violation("favor:sjob-replica-differs", "compress_part and the replica of its encoder calls disagree", format!("{{\"quality\":{},\"lgwin\":{},\"catable\":{},\"appendable\":{},\"magic\":{},\"job\":{},\"threads\":{},\"input\":{}}}", q, lgwin, catable, appendable, magic, i, t, jstr(&hex(&input))));
+        return None;
+    }
+    rep.count(if real_tok == "err" { "sjob.err" } else if real_tok == "panic" { "sjob.panic" } else { "sjob.ok" });
+    if real_tok == "panic" { return None; }
+    let rec = sess.recs.last()?;
+    if let Call::Stream { .. } = rec.call {} else { return None; }
+    let all = &sess.delivered;
+    let mut toks: Vec<String> = vec![];
+    for e in rec.events.iter() {
+        let nbits = (e.out_size * 8 + e.cb_after as u64) as i64 - e.cb_before as i64;
+        if nbits < 0 { return None; }
+        let start = e.next_out_offset * 8 + e.cb_before as u64;
+        let emit = e.lf_after == e.input_pos || e.site == 2;
+        let mut v = vec![0u8; ((nbits as usize) + 7) / 8];
+        let mut have = true;
+        for j in 0..nbits as usize {
+            let p = start as usize + j;
+            if p / 8 >= all.len() { have = false; break; }
+            if (all[p / 8] >> (p % 8)) & 1 == 1 { v[j / 8] |= 1 << (j % 8); }
+        }
+        // bits that were still pending when the call returned are not in the delivered bytes: only their number matters then (the job is Err)
+        if !have && real_tok != "err" { return None; }
+        toks.push(format!("{}.{}.{}.{}", e.result as u8, emit as u8, nbits, if have && nbits > 0 { hex(&v) } else { "-".to_string() }));
+    }
+    if i != 0 { rep.count("sjob.job>0"); }
+    let req = format!("favor sjob {} {} {} {} {} {} {} {} {} {}", i, t, n, q, lgwin, catable as u8, appendable as u8, magic as u8, hex(&input[lo..hi]), if toks.is_empty() { "-".to_string() } else { toks.join("/") });
+    if req.len() > 60000 { return None; }
+    Some((req, real_tok))
+}
+
 pub fn run_cmd(args: &Args) {
     let thorough = args.tier == "thorough";
     let seed = args.seed;
@@ -237,6 +323,9 @@ pub fn run_cmd(args: &Args) {
                 if obs.nonempty { rep.nontrivial += 1; rep.count("shared.nonempty"); } else { rep.count("shared.empty"); }
                 match obs.line { Some(l) => lines.push(l), None => rep.count("no-model-kind") }
             }
+        }
+        for k in 0..(if thorough { 120 } else { 16 }) {
+            if let Some(l) = sjob_case(&mut rng, &mut rep, k % 16 == 0) { lines.push(l); }
         }
         (lines, rep)
     });
